@@ -31,8 +31,9 @@ ASSUMPTIONS = [
   "read as one payload joined by line breaks",
   "text is read from the output leniently (only the known tags are tags, only well-formed character references are decoded), so that "
   "missing escaping (C07) does not hide or fake a text difference",
-  "visibility/opacity (whether hidden text is `visible text` is not stated), set-animation of elements with a non-zero begin (known "
-  "finding of C02) and rubies with timed parts (known finding of C01) are not generated",
+  "visibility/opacity (whether hidden text is `visible text` is not stated) and set-animation of elements with a non-zero begin (known "
+  "finding of C02) are not generated; rubies with parts that are not presented (own timing, no content, another region) are: the text of "
+  "the parts that are presented is required",
 ]
 
 FUNCTIONS_B = ["ttconv.srt.writer:from_model", "ttconv.srt.writer:SrtContext.append_element", "ttconv.srt.writer:SrtContext.add_isd",
